@@ -597,6 +597,21 @@ def arg_consumption(prop, res):
         ALLOWED[c] = (set(), False)
     for c in "#+ '0-123456789.FNMQZhjlLqtz":
         ALLOWED[c] = (set(), False)
+    # the parse cursor: the va_list variable the function's va_arg expressions step (the formatter is given another copy, last_ap)
+    cnt = collections.Counter()
+    for b in fn["blocks"]:
+        for el in b["elems"]:
+            def cv(n):
+                if n.get("k") == "va_arg":
+                    e_ = _strip(n.get("e") or {})
+                    while isinstance(e_, dict) and e_.get("k") in ("unop", "index", "member"):
+                        e_ = _strip(e_.get("e") or e_.get("base") or {})
+                    if isinstance(e_, dict) and e_.get("k") == "var":
+                        cnt[e_["id"]] += 1
+            sa.walk(el["e"], cv)
+    if not cnt:
+        raise AnalysisBroken("R-PRINTF: no va_arg in __gmp_doprnt")
+    cursor = cnt.most_common(1)[0][0]
     judged = 0
     for s_ in swb["succs"]:
         if not isinstance(s_, int) or blocks[s_].get("case", {}).get("k") != "int":
@@ -605,7 +620,7 @@ def arg_consumption(prop, res):
         if not (0 < v < 128) or chr(v) not in ALLOWED:
             continue
         ch = chr(v)
-        seen, todo, got = set(), [s_], {}
+        seen, todo, got, helper = set(), [s_], {}, []
         while todo:
             cur = todo.pop()
             if cur in seen or cur == swb["id"]:
@@ -613,6 +628,16 @@ def arg_consumption(prop, res):
             seen.add(cur)
             for el in blocks[cur]["elems"]:
                 sa.walk(el["e"], lambda n: got.setdefault(cls(n), el["line"]) if n.get("k") == "va_arg" else None)
+
+                def hands_list(n):
+                    # the argument list handed to a helper (doprnt_skip_integer (&ap, type)): what it takes is not visible here
+                    if n.get("k") == "call" and n.get("callee") not in ("__builtin_va_copy", "__builtin_va_end", "__builtin_va_start"):
+                        for a_ in n.get("args", []):
+                            hit = []
+                            sa.walk(a_, lambda m_: hit.append(1) if m_.get("k") == "var" and m_["id"] == cursor else None)
+                            if hit:
+                                helper.append(n.get("callee"))
+                sa.walk(el["e"], hands_list)
             todo += [x for x in blocks[cur]["succs"] if isinstance(x, int)]
         judged += 1
         res["stats"]["arg_consumption_cases"] += 1
@@ -623,6 +648,8 @@ def arg_consumption(prop, res):
                              "the '%s' conversion reaches va_arg of class %s at line %d before the next conversion is parsed; the C library takes %s "
                              "for it, so every later conversion of the format reads the wrong argument" %
                              (ch, "/".join(extra), got[extra[0]], "/".join(sorted(allowed)) or "no argument")))
+        elif must and not got and helper:
+            res["stats"]["arg_consumption_undecided"] += 1
         elif must and not got:
             F.append(Finding(prop, "R-PRINTF", fn["file"], blocks[s_]["elems"][0]["line"] if blocks[s_]["elems"] else 0, fn["name"],
                              "conversion-takes-no-argument:%s" % ch,
